@@ -54,6 +54,7 @@ struct MemFile
   long fail_at = -1; // >= 0: every read at or beyond this offset fails with EIO (an unreadable stretch of the input)
   bool fail_once = false; // the error is transient: only the first such read fails
   long wfail_at = -1;     // >= 0: the stream takes this many bytes in all; what goes beyond is not written (ENOSPC)
+  bool noseek = false;    // a pipe: seeking fails
 };
 static ssize_t mf_read(void *c, char *buf, size_t n)
 {
@@ -117,6 +118,11 @@ static int mf_seek(void *c, off64_t *off, int wh)
   allocfault::Exempt af_;
   MemFile *m = (MemFile *)c;
   m->tick("seek");
+  if (m->noseek)
+  {
+    errno = ESPIPE;
+    return -1;
+  }
   long b = wh == SEEK_SET ? 0 : wh == SEEK_CUR ? m->pos : (long)m->d.size();
   long np = b + *off;
   if (np < 0)
@@ -514,6 +520,7 @@ OpOut encrypt(const bytes &plain, const bytes &key, const bytes &seed, int cmode
   in.d = plain;
   in.fail_at = pc.in_fail_at;
   in.fail_once = pc.in_fail_once;
+  in.noseek = pc.in_noseek;
   out.wfail_at = pc.out_fail_at;
   out.logging = pc.want_log;
   FILE *fi = pc.null_input ? NULL : mf_open(&in, "rb");
@@ -525,7 +532,7 @@ OpOut encrypt(const bytes &plain, const bytes &key, const bytes &seed, int cmode
   with_sched(pc, plain.size() / 16 + 2, o, [&] {
     Settings s((char)cmode, (char)hmode, true);
     runcrypt rc(fi, fo, k.data(), s, (u8_t)pc.T);
-    o.ret = rc.execute_encrypt(plain.size(), sd.data());
+    o.ret = rc.execute_encrypt(pc.fsize_hint >= 0 ? (size_t)pc.fsize_hint : plain.size(), sd.data());
   });
   finish(o, in, plain, &out);
   return o;
@@ -539,6 +546,7 @@ OpOut decrypt(const bytes &file, const bytes &key, const PipeCfg &pc)
   in.d = file;
   in.fail_at = pc.in_fail_at;
   in.fail_once = pc.in_fail_once;
+  in.noseek = pc.in_noseek;
   out.wfail_at = pc.out_fail_at;
   out.logging = pc.want_log;
   FILE *fi = pc.null_input ? NULL : mf_open(&in, "rb");
@@ -546,9 +554,9 @@ OpOut decrypt(const bytes &file, const bytes &key, const PipeCfg &pc)
   bytes k = key;
   k.resize(16);
   with_sched(pc, file.size() / 16 + 2, o, [&] {
-    Settings s((char)-1, (char)-1, true);
+    Settings s((char)pc.hint_c, (char)pc.hint_h, true);
     runcrypt rc(fi, fo, k.data(), s, (u8_t)pc.T);
-    o.ret = rc.execute_decrypt(file.size());
+    o.ret = rc.execute_decrypt(pc.fsize_hint >= 0 ? (size_t)pc.fsize_hint : file.size());
   });
   finish(o, in, file, &out);
   return o;
@@ -562,14 +570,15 @@ OpOut verify(const bytes &file, const bytes &key, const PipeCfg &pc, bool with_o
   in.d = file;
   in.fail_at = pc.in_fail_at;
   in.fail_once = pc.in_fail_once;
+  in.noseek = pc.in_noseek;
   FILE *fi = pc.null_input ? NULL : mf_open(&in, "rb");
   FILE *fo = with_out ? mf_open(&out, "wb+", pc.outbuf) : NULL;
   bytes k = key;
   k.resize(16);
   with_sched(pc, file.size() / 16 + 2, o, [&] {
-    Settings s((char)-1, (char)-1, true);
+    Settings s((char)pc.hint_c, (char)pc.hint_h, true);
     runcrypt rc(fi, fo, k.data(), s, (u8_t)pc.T);
-    o.ret = rc.execute_verify(file.size());
+    o.ret = rc.execute_verify(pc.fsize_hint >= 0 ? (size_t)pc.fsize_hint : file.size());
   });
   finish(o, in, file, with_out ? &out : NULL);
   return o;
@@ -1119,17 +1128,26 @@ struct OffBlock
         g_canary_msg = "bytes outside the 16-byte block were written";
   }
 };
+// The caller's key buffer does not outlive the construction of the handle: it is overwritten right afterwards (a
+// caller that zeroises its key once the cipher object exists). The handle must go on computing AES under the key it
+// was built with.
 void aes_encrypt_block(const uint8_t key[16], uint8_t block[16], int off)
 {
   OffBlock b(block, off);
-  encryaes e(key);
+  u8_t kb[16];
+  memcpy(kb, key, 16);
+  encryaes e(kb);
+  memset(kb, 0x3c, sizeof kb);
   e.runaes_128bit(b.p);
   b.out(block);
 }
 void aes_decrypt_block(const uint8_t key[16], uint8_t block[16], int off)
 {
   OffBlock b(block, off);
-  decryaes d(key);
+  u8_t kb[16];
+  memcpy(kb, key, 16);
+  decryaes d(kb);
+  memset(kb, 0xc3, sizeof kb);
   d.runaes_128bit(b.p);
   b.out(block);
 }
@@ -1140,6 +1158,7 @@ static std::vector<bytes> aes_handles_t(int nslots, const std::vector<AesHOp> &o
   if (copyable)
     *copyable = can_copy;
   std::vector<H *> slot((size_t)nslots, nullptr);
+  std::vector<u8_t *> keybufs;
   std::vector<bytes> res;
   for (const AesHOp &o : ops)
   {
@@ -1150,14 +1169,25 @@ static std::vector<bytes> aes_handles_t(int nslots, const std::vector<AesHOp> &o
     switch (o.op)
     {
     case 0:
+    {
+      // the key is handed over in a buffer of its own, which is overwritten after the construction and released at
+      // once (odd o.b) or at the end of the script
+      u8_t *kb = new u8_t[16];
+      memcpy(kb, o.key.data(), 16);
       if (A)
       {
         A->~H();
-        new (A) H(o.key.data()); // same storage, another key
+        new (A) H(kb); // same storage, another key
       }
       else
-        A = new H(o.key.data());
+        A = new H(kb);
+      memset(kb, 0x99, 16);
+      if (o.b & 1)
+        delete[] kb;
+      else
+        keybufs.push_back(kb);
       break;
+    }
     case 1:
       if constexpr (can_copy)
         if (B && B != A)
@@ -1192,6 +1222,8 @@ static std::vector<bytes> aes_handles_t(int nslots, const std::vector<AesHOp> &o
   }
   for (H *h : slot)
     delete h;
+  for (u8_t *k : keybufs)
+    delete[] k;
   return res;
 }
 std::vector<bytes> aes_handles(bool enc, int nslots, const std::vector<AesHOp> &ops, bool *copyable)
@@ -1224,6 +1256,9 @@ void *mode_new(bool enc, int type, const uint8_t key[16], const uint8_t iv[16])
     delete h;
     return NULL;
   }
+  // the buffers the stream object was made from are overwritten: the object has to live on its own copies
+  memset(h->key, 0x5c, sizeof h->key);
+  memset(h->iv, 0xc5, sizeof h->iv);
   return h;
 }
 void mode_run(void *hh, uint8_t block[16], int off)
